@@ -86,7 +86,9 @@ def joined_on_second_pass(det):
     if not isinstance(det, dict) or "first" not in det or "second" not in det:
         return False
     first, second = det["first"], det["second"]
-    return _squash(first) == _squash(second)
+    # white space between tokens only: the evaluator's parser must read both outputs as the same program (so nothing
+    # inside a string or text block changed) and no CR may have appeared or disappeared
+    return bool(det.get("same_tree")) and first.count("\r") == second.count("\r") and _squash(first) == _squash(second)
 
 
 GLUED_SPECS = re.compile(r"^\s*for [^\n]*?[A-Za-z0-9_](?:if|for) |^\s*for [^\n]*(?://|#)[^\n]*\b(?:if|for) ", re.M)
@@ -154,7 +156,13 @@ def fixed_point(acc, w, build, text, origin):
             core = reduce_failure(w, text, indent, kind) if acc.n.get("reduced", 0) < 150 else text
             acc.inc("reduced")
             k2, d2 = fp_verdict(w, core, indent)
-            sig = {"oracle": kind, "features": features(core, d2 if k2 == kind else det)}
+            dd = d2 if k2 == kind else det
+            if kind == "not-a-fixed-point" and isinstance(dd, dict) and "second" in dd:
+                pa = w.call({"op": "parse", "code": dd["first"]}, timeout=60)
+                pb = w.call({"op": "parse", "code": dd["second"]}, timeout=60)
+                ta, tb = (pa.get("ir") or {}).get("tree"), (pb.get("ir") or {}).get("tree")
+                dd["same_tree"] = ta is not None and ta == tb
+            sig = {"oracle": kind, "features": features(core, dd)}
             if isinstance(d2, dict) and "converges_on_third_pass" in d2:
                 sig["converges_on_third_pass"] = d2["converges_on_third_pass"]
             acc.violation(sig,
